@@ -27,13 +27,13 @@ Fits(bb, cv) ==
   /\ (cv.f = "s") => \A i \in DOMAIN bb : bb[i].fib = bb[1].fib
   /\ (cv.p = "s" /\ cv.f = "s") => Len(bb) = 1
 MkCall(bb, cv, loc) ==
-  [kind |-> "readspec", conv |-> cv, loc |-> loc, mem |-> "plain",
+  [kind |-> "readspec", conv |-> cv, loc |-> loc, mem |-> "plain", num |-> "int",
    p |-> IF cv.p = "s" THEN <<bb[1].plate>> ELSE [i \in DOMAIN bb |-> bb[i].plate],
    m |-> IF cv.m = "o" THEN <<>> ELSE IF cv.m = "s" THEN <<bb[1].mjd>> ELSE [i \in DOMAIN bb |-> bb[i].mjd],
    f |-> IF cv.f = "s" THEN <<bb[1].fib>> ELSE [i \in DOMAIN bb |-> bb[i].fib]]
 AllFibCall(ps, ms) == [kind |-> "readspec", conv |-> [p |-> IF Len(ps) = 1 THEN "s" ELSE "v",
                                                        m |-> IF ms = <<>> THEN "o" ELSE "s", f |-> "o"],
-                       loc |-> "env", mem |-> "plain", p |-> ps, m |-> ms, f |-> <<>>]
+                       loc |-> "env", mem |-> "plain", num |-> "int", p |-> ps, m |-> ms, f |-> <<>>]
 
 RECURSIVE Ascending(_)
 Ascending(S) == IF S = {} THEN <<>> ELSE LET x == CHOOSE y \in S : \A z \in S : y <= z IN <<x>> \o Ascending(S \ {x})
@@ -59,6 +59,14 @@ Blank(p) == /\ pc = p /\ b = <<>> /\ call = NoCall /\ req = <<>> /\ keys = <<>> 
             /\ blk = Empty /\ acc = Empty /\ ret = <<>>
 Block(n, r, w) == [i \in 1..r |-> [q \in 1..w |-> n * 100 + i * 10 + q]]
 AppArgs(c) == <<c.s1, c.s2, c.shift>>
+(* value ranges of the two blocks: the second (or first) block holds values the other      *)
+(* block's narrowest type cannot (above 2^16, negative, odd above 2^24)                     *)
+AppVariants == {"same", "big2", "big1", "neg2", "wide2"}
+Vary(m, v, n) == [i \in DOMAIN m |-> [q \in DOMAIN m[i] |->
+                    IF (v = "big2" /\ n = 2) \/ (v = "big1" /\ n = 1) THEN m[i][q] + 70000
+                    ELSE IF v = "neg2" /\ n = 2 THEN 0 - m[i][q]
+                    ELSE IF v = "wide2" /\ n = 2 THEN 16777217 + 2 * m[i][q]
+                    ELSE m[i][q]]]
 
 Init ==
   \/ "machine" \in Families /\ Blank("build")
@@ -83,8 +91,9 @@ Init ==
         \/ \E S \in SUBSET Plates : Cardinality(S) >= 2 /\ call = AllFibCall(Ascending(S), <<>>)
      /\ pc = "call" /\ b = <<>> /\ req = <<>> /\ keys = <<>> /\ ki = 0 /\ blk = Empty /\ acc = Empty /\ ret = <<>>
   \/ /\ "append" \in Families
-     /\ \E r1, r2 \in 1..2 : \E p1, p2 \in 1..AppMax : \E s \in (-AppMax)..AppMax :
-          call = [kind |-> "append", s1 |-> Block(1, r1, p1), s2 |-> Block(2, r2, p2), shift |-> s]
+     /\ \E r1, r2 \in 1..2 : \E p1, p2 \in 1..AppMax : \E s \in (-AppMax)..AppMax : \E v \in AppVariants :
+          call = [kind |-> "append", s1 |-> Vary(Block(1, r1, p1), v, 1), s2 |-> Vary(Block(2, r2, p2), v, 2),
+                  shift |-> s, v |-> v]
      /\ ret = SpecAppend(AppArgs(call)[1], AppArgs(call)[2], call.shift)
      /\ pc = "appended" /\ b = <<>> /\ req = <<>> /\ keys = <<>> /\ ki = 0 /\ blk = Empty /\ acc = Empty
 
@@ -115,7 +124,7 @@ ASSUME TreeWellFormed /\ LayoutWellFormed
 Done == pc = "done"
 TypeOK == /\ pc \in {"build", "file", "call", "group", "read", "append", "reorder", "return", "done", "appended"}
           /\ ki \in 0..(Len(Tree) + 1)
-          /\ (call.kind = "readspec") => (ValidCall(call) /\ call.loc \in Locs /\ call.mem \in Mems)
+          /\ (call.kind = "readspec") => (ValidCall(call) /\ call.loc \in Locs /\ call.mem \in Mems /\ call.num \in Nums)
           /\ (pc \notin {"build", "file", "call", "appended"}) => RequestOK(req)
 C16_RowIdentity == Done => RowIdentity(req, ret)
 C16_NoShift == Done => NoShift(req, ret)
